@@ -90,3 +90,50 @@ func TestSizes(t *testing.T) {
 	}
 	ev.Exhaustive(fmt.Sprintf("snapshot sizes: every size from 1 to %d sessions / 2 to %d subscriptions / 1 to %d retained messages (with removals), merged by a fresh node and by a node living on snapshots alone", n, 2*n, n/2))
 }
+
+// TestBigSnapshot: one snapshot of 70 000 (thorough 300 000) entries of each kind, a seventh of
+// them removed again, merged by a fresh node and by a node that had received every other gossip
+// message: both list what the sender lists.
+func TestBigSnapshot(t *testing.T) {
+	restore := dst.InstallClock()
+	defer restore()
+	m := ev.Scale(70_000, 300_000)
+	base := int64(1_700_000_000_000_000_000)
+	a, half := dst.NewNode(1), dst.NewNode(3)
+	k := 0
+	for i := 0; i < m; i++ {
+		dst.SetNow(base + int64(i)*100)
+		a.State.Topics().Set(&packet.Publish{Header: &packet.Header{Retain: true}, Topic: []byte(fmt.Sprintf("mp/b/%d/s", i)), Payload: []byte(fmt.Sprint(i))})
+		a.State.SessionMetadatas().Create(fmt.Sprintf("bs-%d", i), fmt.Sprintf("bc-%d", i), 1000, nil, "mp")
+		a.State.Subscriptions().Create(fmt.Sprintf("bs-%d", i), []byte(fmt.Sprintf("mp/c/%d/+", i)), 1)
+		if i%7 == 3 {
+			dst.SetNow(base + int64(i)*100 + 50)
+			a.State.Topics().Delete([]byte(fmt.Sprintf("mp/b/%d/s", i-2)))
+			a.State.SessionMetadatas().Delete(fmt.Sprintf("bs-%d", i-1))
+			a.State.Subscriptions().Delete(fmt.Sprintf("bs-%d", i-3), []byte(fmt.Sprintf("mp/c/%d/+", i-3)))
+		}
+		if i%256 == 0 {
+			for _, msg := range a.Drain() {
+				k++
+				if k%2 == 0 {
+					half.Deliver(msg)
+				}
+			}
+		}
+	}
+	a.Drain()
+	snap := a.Snapshot()
+	va := dst.ViewOf(a)
+	c := map[string]interface{}{"scenario": "big snapshot", "entries_per_kind": m, "snapshot_bytes": len(snap)}
+	ev.Case(true, c, "big-snapshot")
+	fresh := dst.NewNode(2)
+	fresh.MergeSnapshot(snap)
+	if d := dst.Diff("A", va, "a fresh node after merging A's snapshot", dst.ViewOf(fresh)); d != "" {
+		ev.Fail(t, "big-snapshot", c, "%d entries of each kind (%d bytes): %s", m, len(snap), d)
+		return
+	}
+	half.MergeSnapshot(snap)
+	if d := dst.Diff("A", va, "a node that had received every other gossip message, after merging A's snapshot", dst.ViewOf(half)); d != "" {
+		ev.Fail(t, "big-snapshot", c, "%d entries of each kind (%d bytes): %s", m, len(snap), d)
+	}
+}
